@@ -694,7 +694,8 @@ def rodrigues(c, s, axis, dim):
 
 def grp_spatial(cx, tier):
     alpha = sym("alpha_deg")
-    for dim, axis in ((2, 0), (3, 0), (3, 1), (3, 2)):
+    # in two dimensions there is one rotation (about the plane's normal): whatever `axis` is handed over (Mesh.rotate requires one)
+    for dim, axis in ((2, 0), (2, 1), (2, 2), (3, 0), (3, 1), (3, 2)):
         def c(dim=dim, axis=axis):
             R = cx.call("rotation_matrix", alpha, dim=dim, axis=axis, mod="_spatial")
             a = alpha * ring.pi() / 180
